@@ -6,6 +6,7 @@
 #include "common/ledger.h"
 #include "common/models.h"
 #include "common/leak.h"
+#include "common/faultmode.h"
 
 #include <deque>
 #include <memory>
@@ -15,10 +16,10 @@
 namespace {
 using namespace vf;
 
-enum Kind { H_ADD = 1, H_REMOVE, H_DISPATCH, H_ENQ, H_PROCESS, H_PROCESSONE, H_PROCESSIF, H_CLEAR, H_EMPTYQ, H_FOREACH, H_HASANY, H_MAX };
+enum Kind { H_ADD = 1, H_REMOVE, H_DISPATCH, H_ENQ, H_PROCESS, H_PROCESSONE, H_PROCESSIF, H_CLEAR, H_EMPTYQ, H_FOREACH, H_HASANY, H_COPY, H_MAX };
 const char * kindName(int k)
 {
-	static const char * n[] = { "?", "addListener", "removeListener", "dispatch", "enqueue", "process", "processOne", "processIf", "clearEvents", "emptyQueue", "forEach", "hasAnyListener" };
+	static const char * n[] = { "?", "addListener", "removeListener", "dispatch", "enqueue", "process", "processOne", "processIf", "clearEvents", "emptyQueue", "forEach", "hasAnyListener", "copy" };
 	return (k > 0 && k < H_MAX) ? n[k] : "?";
 }
 
@@ -96,6 +97,9 @@ struct IHeter
 	virtual void forEach(int key, int proto, std::vector<int> & out) = 0;
 	// forEach<Prototype> selects by first match too: a shadowed prototype cannot be named
 	virtual bool canEnumerate(int) const { return true; }
+	// copy-construct (how=0) or copy-assign (how=1) a second queue from this one, check it lists the same number of
+	// listeners, destroy it; returns false if the copy differs
+	virtual bool copyProbe(int how) = 0;
 	virtual size_t handleCount() const = 0;
 };
 
@@ -124,6 +128,13 @@ struct HBase : IHeter
 			if(x.index == h.index && ! x.homoHandle.expired() && ! h.homoHandle.expired() && ! x.homoHandle.owner_before(h.homoHandle) && ! h.homoHandle.owner_before(x.homoHandle)) return (int)(i - 1);
 		}
 		return -2;
+	}
+	bool copyProbe(int how) override {
+		Q other;
+		if(how) other = q;
+		Q third(how ? other : q);
+		for(int k = 0; k < kKeys; ++k) if(third.hasAnyListener(k) != q.hasAnyListener(k)) return false;
+		return true;
 	}
 	template <typename Proto> void each(int key, std::vector<int> & out) {
 		q.template forEach<Proto>(key, [&](const Handle & h, const std::function<Proto> &) { out.push_back(find(h)); });
@@ -186,6 +197,22 @@ struct Cfg0 : HBase<eventpp::HeterEventQueue<int, L1> >
 		case 2: each<void (const std::string &)>(key, out); break;
 		default: each<void (const Big &)>(key, out); break;
 		}
+	}
+	// also the bare HeterCallbackList: copy construction and copy assignment (incl. self) of a list with callbacks of two prototypes
+	bool copyProbe(int how) override {
+		if(! HBase<eventpp::HeterEventQueue<int, L1> >::copyProbe(how)) return false;
+		eventpp::HeterCallbackList<L1> a;
+		a.append(Fn<>(900001));
+		a.append(Fn<int>(900002));
+		a.append(Fn<int>(900003));
+		eventpp::HeterCallbackList<L1> b;
+		b.append(Fn<const std::string &>(900004));
+		if(how) { b = a; b = b; } else { eventpp::HeterCallbackList<L1> c(a); b.swap(c); }
+		int seen = 0;
+		b.forEach<void (int)>([&](const std::function<void (int)> &) { ++seen; });
+		b.forEach<void ()>([&](const std::function<void ()> &) { ++seen; });
+		b.forEach<void (const std::string &)>([&](const std::function<void (const std::string &)> &) { seen += 10; });
+		return seen == 3 && ! a.empty();
 	}
 };
 
@@ -283,6 +310,13 @@ struct Cfg2 : IHeter
 		default: descAll(e, k, value); q.enqueue(skey(key), value); break;
 		}
 	}
+	bool copyProbe(int how) override {
+		Q other;
+		if(how) other = q;
+		Q third(how ? other : q);
+		for(int k = 0; k < kKeys; ++k) if(third.hasAnyListener(skey(k)) != q.hasAnyListener(skey(k))) return false;
+		return true;
+	}
 	bool process() override { return q.process(); }
 	bool processOne() override { return q.processOne(); }
 	bool processIf(int k) override { return k == 0 ? q.processIf(Pr<const std::string &>()) : q.processIf(Pr<const std::string &, int>()); }
@@ -347,6 +381,7 @@ struct Interp
 	long consumed = 0;
 	std::set<int> slotProtos;
 	bool foreignPending = false, recycledAcross = false, firstMatch = false;
+	FaultPlan * plan = nullptr;
 
 	Interp(const Program & p, const std::string & pr, Verdict & v_) : prog(p), prop(pr), v(v_) {}
 	void fail(const std::string & rule, const std::string & pr, const std::string & msg) {
@@ -554,6 +589,12 @@ struct Interp
 			if(got != lists[key][proto].nodes) fail("heter.forEach", "C14", "forEach of prototype " + std::to_string(proto) + " for key " + std::to_string(key) + " differs from the model");
 			break;
 		}
+		case H_COPY: {
+			bool same;
+			{ struct Un { Un() { --faults().paused; } ~Un() { ++faults().paused; } } un; same = impl->copyProbe(op.b & 1); }
+			if(! same) fail("heter.copy", "C10,C14", "a copy of the queue does not hold the same listeners");
+			break;
+		}
 		case H_HASANY: {
 			bool any = false;
 			for(int p = 0; p < impl->protoCount(); ++p) if(! lists[key][p].empty()) any = true;
@@ -567,6 +608,31 @@ struct Interp
 	}
 	const MEv * pendingDirect = nullptr;
 
+	// C09: a failed copy of a container leaves its source untouched (and the exception reaches the caller: a copy routed
+	// through a noexcept function ends in std::terminate, which the runtime reports as a crash)
+	void execCopyWithFaults(const Op & op, int index) {
+		int caught = 0;
+		{
+			FaultArm arm(plan, index);
+			try { execOp(op); }
+			catch(const Injected &) { caught = 1; }
+			catch(const std::bad_alloc &) { caught = 2; }
+			catch(...) { fail("fault.foreign", "C09", "an exception of a different type than the injected one reached the caller"); }
+		}
+		if(! caught) return;
+		++plan->fired;
+		plan->firedKind = faults().lastKind;
+		auto it = plan->at.find(index);
+		if(it != plan->at.end() && it->second > 1 && ! nodeKey.empty()) plan->firedAtKGreater1OnNonEmpty = true;
+		log << "[fault]";
+		for(int k = 0; k < kKeys && ! failed; ++k) for(int p = 0; p < impl->protoCount() && ! failed; ++p) {
+			if(! impl->canEnumerate(p)) continue;
+			std::vector<int> got;
+			impl->forEach(k, p, got);
+			if(got != lists[k][p].nodes) fail("fault.copy.source", "C09", "a failed copy changed its source");
+		}
+	}
+
 	// direct dispatch: the frame learns its single event when the first listener is called
 	void onCallDirectFix() {
 		if(! frames.empty() && frames.back().direct && frames.back().batch.empty() && pendingDirect) {
@@ -577,7 +643,13 @@ struct Interp
 	void run() {
 		const int cfg = prog.params.empty() ? 0 : ((prog.params[0] % kConfigs) + kConfigs) % kConfigs;
 		impl.reset(makeImpl(cfg));
-		for(const Op & op : prog.ops) { if(failed) break; execOp(op); }
+		FaultPause harnessCode;
+		int index = 0;
+		for(const Op & op : prog.ops) {
+			if(failed) break;
+			if(plan && op.kind == H_COPY) execCopyWithFaults(op, index); else execOp(op);
+			++index;
+		}
 		if(! failed) {
 			// final drain
 			Op d; d.kind = H_PROCESS;
@@ -624,6 +696,7 @@ Grammar makeGrammar(const std::string &)
 		{ H_EMPTYQ, "emptyQueue", 2, key, ArgSpec(0, 0), ArgSpec(0, 0), -1, 0 },
 		{ H_FOREACH, "forEach", 2, key, kind, ArgSpec(0, 0), -1, 0 },
 		{ H_HASANY, "hasAnyListener", 1, key, ArgSpec(0, 0), ArgSpec(0, 0), -1, 0 },
+		{ H_COPY, "copy", 3, key, ArgSpec(0, 1), ArgSpec(0, 0), -1, 0 },
 	};
 	g.levels.push_back(top);
 	return g;
@@ -637,7 +710,7 @@ const Grammar & grammar(const std::string & prop)
 }
 
 long g_caseCounter = 0;
-Verdict run(const Program & p, const std::string & prop)
+Verdict runOnce(const Program & p, const std::string & prop, FaultPlan * plan)
 {
 	Verdict v;
 	v.trace.reserve(4096);
@@ -647,6 +720,7 @@ Verdict run(const Program & p, const std::string & prop)
 	LeakScope scope;
 	{
 		Interp in(p, prop, v);
+		in.plan = plan;
 		g_h = &in;
 		in.run();
 		g_h = nullptr;
@@ -663,7 +737,13 @@ Verdict run(const Program & p, const std::string & prop)
 		v.classes.push_back("lsan_confirmation_run");
 		if(confirmLeak()) v.fail("lsan.leak", "C08,C14", "LeakSanitizer: memory allocated during the case is unreachable afterwards", "lsan.leak");
 	}
+	if(! v.ok && plan && ! plan->counting && v.prop.find("C09") == std::string::npos) v.prop += ",C09";
 	return v;
+}
+Verdict run(const Program & p, const std::string & prop)
+{
+	if(prop != "C09") return runOnce(p, prop, nullptr);
+	return faultOrchestrate(p, [&](const Program & q2, FaultPlan & plan, Verdict & out) { out = runOnce(q2, "C14", &plan); });
 }
 } // namespace
 
